@@ -3,7 +3,7 @@
 Group 1  the real parser core on *symbolic token classes*: every class sequence of length <= L after '='            (E2)
 Group 2  every alternative of every function's _TOKEN_SETS (read from the real tables) with one symbolic token replaced /
          inserted / deleted at a symbolic position (two appended in the thorough tier)                                  (E2)
-Group 4  accepted argument counts of every supported function against Excel's documented arities (concrete survey)
+Group 4  every argument of every accepted call of every supported function (0..7 arguments, marker arguments) occurs in the emitted code (concrete survey)
 Group 3  whitespace placement and ',' / ';' choice: z3-enumerated variants of concrete formulas through the real Lexer and
          translators must give the same emitted code as the canonical spelling (solver as enumerator; stated)           (E2)
 Assertion on every path: AstBuilder.parse raises the library's parser exception, or returns a tree that holds every input
@@ -87,7 +87,10 @@ def _ws_job(fi, timeout):
     return e2.explore(run, timeout=timeout, max_failures=5)
 
 
-# Excel's documented argument counts (min, max, step): an accepted call must have one of these counts
+# Excel's documented argument counts (min, max, step): informational only (the grammar tables of the library define what is accepted)
+# arguments that legitimately do not occur in the emitted code: (function, argument index) -> why
+NOT_EMITTED = {('COLUMN', 0): 'the reference is resolved to its column number while translating',
+               ('TEXT', 1): 'TEXT passes its first argument through; number formats are not implemented by the library'}
 EXCEL_ARITY = {
     'ADDRESS': (2, 5, 1), 'AND': (1, 255, 1), 'AVERAGE': (1, 255, 1), 'AVERAGEIFS': (3, 255, 2), 'COLUMN': (0, 1, 1), 'COUNT': (1, 255, 1), 'COUNTBLANK': (1, 1, 1),
     'COUNTIFS': (2, 254, 2), 'CONCATENATE': (1, 255, 1), 'DAY': (1, 1, 1), 'DATE': (3, 3, 1), 'DATEDIF': (3, 3, 1), 'EDATE': (2, 2, 1), 'EOMONTH': (2, 2, 1), 'IF': (2, 3, 1),
@@ -97,32 +100,55 @@ EXCEL_ARITY = {
 }
 
 
+def translate_grid(formula):
+    """real Lexer -> AstBuilder -> translators on one formula cell G1 over an 8x5 block of constants (no workbook I/O); returns the class text"""
+    from excel2pycl.src.cell import Cell
+    from excel2pycl.src.context import Context
+    from excel2pycl.src.excel import Excel
+    from excel2pycl.src.translators import CellTranslator
+    rows = [[10 * r + c for c in range(5)] + [None, formula if r == 0 else None] for r in range(8)]
+    excel = Excel({'data': [rows], 'titles': ['S'], 'suspicious_cells': {}, 'sheets_size': [{'last_column': 7, 'last_row': 8}]})
+    ctx = Context()
+    ctx._titles, ctx._sheets_size = excel.get_titles(), excel.get_sheets_size()
+    CellTranslator.translate(Cell(0, 6, 0), excel, ctx)
+    return ctx.build_class()
+
+
 def arity_survey():
-    """which argument counts does the real grammar accept for each supported function (concrete: a few argument-kind patterns per count)"""
+    """For every supported function and every argument count 0..7 (a few argument-kind patterns per count, every argument a distinct marker: the number
+    7001+i, the row area A<i>:B<i>, the cell C<i>, the criterion ">9100+i"): whenever the real lexer/parser/translators accept the call, every argument must reach the
+    emitted code - an accepted argument list whose surplus arguments are silently dropped is a part of the formula that was not consumed.
+    -> {function: {'accepted': [counts], 'dropped': [(formula, missing marker)]}}"""
+    import re
     from excel2pycl.src.exceptions import E2PyclException
-    from harness.c01 import translate_one
-    T, LEX, IDX = pc.tables()
     from excel2pycl.src.tokens.regexp_base_token import KeywordRegexpBaseToken
     out = {}
+    kinds = {'n': lambda i: (str(7001 + i), str(7001 + i)), 'a': lambda i: (f'A{i + 1}:B{i + 1}', f"_cell_preprocessor('_0_1_{i}')"), 'c': lambda i: (f'">{9100 + i}"', str(9100 + i)),
+             'r': lambda i: (f'C{i + 1}', f"_cell_preprocessor('_0_2_{i}')")}
     for kw in KeywordRegexpBaseToken.subclasses():
         f = kw.regexp
-        acc = set()
+        acc, dropped = set(), []
         for n in range(0, 8):
-            pats = {tuple(['1'] * n), tuple(['A1:B2'] * n), tuple(['A1:B2'] + ['1'] * (n - 1)) if n else (), tuple(['A1:B2', 'A1:B2'] + ['1'] * (n - 2)) if n > 1 else (),
-                    tuple(['1', 'A1:B2'] + ['1'] * (n - 2)) if n > 1 else (), tuple((['A1:B2', '">1"'] * 4)[:n]), tuple((['A1:B2'] + ['A1:B2', '">1"'] * 4)[:n])}
-            for pat in pats:
+            pats = {'n' * n, 'a' * n, 'r' * n, ('a' + 'n' * n)[:n], ('aa' + 'n' * n)[:n], ('na' + 'n' * n)[:n], ('ra' + 'n' * n)[:n], ('ac' * 4)[:n], ('a' + 'ac' * 4)[:n], ('rn' * 4)[:n]}
+            for pat in sorted(pats):
                 if len(pat) != n:
                     continue
+                args = [kinds[k](i) for i, k in enumerate(pat)]
+                formula = f'={f}({",".join(a for a, _ in args)})'
                 try:
-                    translate_one(f'={f}({",".join(pat)})')
-                    acc.add(n)
-                    break
+                    src = translate_grid(formula)
                 except E2PyclException:
-                    pass
+                    continue
                 except Exception:
-                    acc.add(n)          # accepted by the grammar (the translator failed later)
-                    break
-        out[f] = sorted(acc)
+                    acc.add(n)          # accepted by the grammar (a translator failed later: C06's subject)
+                    continue
+                acc.add(n)
+                body = src.split('def exec_function_in')[1]
+                for i, (a, marker) in enumerate(args):
+                    if marker not in body and (f, i) not in NOT_EMITTED:
+                        dropped.append((formula, a))
+                        break
+        out[f] = dict(accepted=sorted(acc), dropped=dropped[:3])
     return out
 
 
@@ -145,26 +171,24 @@ def run(report, tier, seed):
         jobs.append((f'ws_{fi}', _ws_job, (fi, to)))
     res = e2.run_jobs(jobs, NCPU, deadline=to * 2 + 120)
     handle(report, res, 'C05', ('truncated', 'none', 'foreign_tokens', 'foreign'))
-    # group 4: accepted argument counts against Excel's documented ones (concrete survey through the real lexer/parser)
-    surv = e2.run_jobs([('arity', arity_survey, ())], 1, deadline=600)['arity']
-    kfs = findings.for_property('C05')
+    # group 4: accepted argument lists reach the emitted code (concrete survey through the real lexer/parser/translators)
+    surv = e2.run_jobs([('arity', arity_survey, ())], 1, deadline=900)['arity']
     if isinstance(surv, dict) and 'error' not in surv:
-        for f, counts in sorted(surv.items()):
+        wider = {}
+        for f, r in sorted(surv.items()):
             lo, hi, step = EXCEL_ARITY.get(f, (0, 255, 1))
-            extra = [n for n in counts if not (lo <= n <= hi and (n - lo) % step == 0)]
-            unknown = [n for n in extra if not any(e.get('arity') == [f, n] for e in kfs)]
-            for n in extra:
-                for e in kfs:
-                    if e.get('arity') == [f, n]:
-                        report.condition(f'arity.{f}#{n}', 'concrete', 'known', detail=e.get('what', ''))
-                        report.known_finding(f'{f} is accepted with {n} argument(s); Excel defines {lo}..{hi}' + (f' step {step}' if step > 1 else '') + f' :: {e.get("what", "")}', key=e.get('what'))
-            if f not in EXCEL_ARITY:
-                report.condition(f'arity.{f}', 'concrete', 'inconclusive', detail='no documented arity in the oracle table for this keyword')
-            elif unknown:
-                report.condition(f'arity.{f}', 'concrete', 'violated', detail=f'accepted with {unknown} argument(s); Excel defines {lo}..{hi} step {step}')
-                report.violation(f'arity.{f}', f'={f}(' + ','.join(['1'] * unknown[0]) + ')', f'{f} is accepted with {unknown[0]} argument(s), which Excel does not define ({lo}..{hi}' + (f' step {step})' if step > 1 else ')'))
+            extra = [n for n in r['accepted'] if not (lo <= n <= hi and (n - lo) % step == 0)]
+            if extra:
+                wider[f] = extra
+            exempt = [k for k in NOT_EMITTED if k[0] == f]
+            bad = r['dropped']
+            if bad:
+                report.condition(f'arity.{f}', 'concrete', 'violated', detail=f'{bad[0][0]} is accepted but its argument {bad[0][1]} does not reach the emitted code')
+                report.violation(f'arity.{f}', bad[0][0], f'the call is accepted, but its argument {bad[0][1]} is dropped: it does not occur in the emitted code')
             else:
-                report.condition(f'arity.{f}', 'concrete', 'holds', detail=f'accepted argument counts {counts}')
+                report.condition(f'arity.{f}', 'concrete', 'holds', detail=f'accepted argument counts {r["accepted"]}; every argument of every accepted call occurs in the emitted code'
+                                 + (f' (except {NOT_EMITTED[exempt[0]]})' if exempt else ''))
+        report.note(f'argument counts the pinned grammar tables define beyond Excel\'s documented arity (defined by the grammar, hence inside the property): {wider}')
     else:
         report.condition('arity.survey', 'concrete', 'inconclusive', detail=str(surv)[:200])
     report.extra['function_alternatives'] = len(inst)
